@@ -346,10 +346,119 @@ theorem format_explicit' (s1 : List Char) (pos : List (Nat × Option Nat)) (o : 
       obtain ⟨y, hy, hyw⟩ := (m1 r hr).ws d hrd.1 hrd.2
       exact ⟨y, hy, isWs_of_isWsByte y hyw⟩
 
-/-- everything one cleaning of a well-delimited source without `unwrap-block` gives -/
+/-! ### tokens of pieces, without conditions on the texts -/
+
+/-- what a token of a sequence of pieces looks like when nothing is asked of the texts -/
+def TokShapeW (ds de : List Char) (kv : TKind × List Char) : Prop :=
+  match kv.1 with
+  | .text => True
+  | .element => ∃ b0 rest, kv.2 = ds ++ (b0 :: (rest ++ de))
+
+theorem tnorm_shapeW (ds de : List Char) : ∀ (ps : List Piece) (acc : List Char),
+    ∀ kv ∈ tnorm ds de [] ps acc, TokShapeW ds de kv
+  | [], acc, kv, hkv => by
+    simp only [tnorm, List.append_nil] at hkv
+    split at hkv
+    · simp only [List.mem_singleton] at hkv
+      subst hkv
+      trivial
+    · simp at hkv
+  | .text s :: ps, acc, kv, hkv => by
+    simp only [tnorm] at hkv
+    exact tnorm_shapeW ds de ps _ kv hkv
+  | .tag b0 rest :: ps, acc, kv, hkv => by
+    simp only [tnorm, List.mem_append, List.mem_singleton] at hkv
+    rcases hkv with (h | h) | h
+    · split at h
+      · simp only [List.mem_singleton] at h
+        subst h; trivial
+      · simp at h
+    · subst h
+      exact ⟨b0, rest, rfl⟩
+    · exact tnorm_shapeW ds de ps [] kv h
+
+theorem tokShapeW_of_shape (d0 e0 : Char) (ds de : List Char) (kv : TKind × List Char)
+    (h : TokShape d0 e0 ds de kv) : TokShapeW ds de kv := by
+  unfold TokShape at h
+  unfold TokShapeW
+  cases hk : kv.1 with
+  | text => trivial
+  | element =>
+    rw [hk] at h
+    obtain ⟨b0, rest, hv, _⟩ := h
+    exact ⟨b0, rest, hv⟩
+
+/-- `pieces_exact` without conditions on the texts (and without the conclusion that the new pieces are well delimited) -/
+theorem pieces_exact_w (d0 : Char) (dr : List Char) (e0 : Char) (er : List Char) (hd0 : wsChar d0 = false)
+    (hel : ∀ w c, (e0 :: er) = w ++ [c] → wsChar c = false) (F : List Rng) (K : Bytes)
+    (hF : ∀ d, inAny F d = true → ∃ y, K[d]? = some y ∧ isWs y = true) :
+    ∀ (L : List Token) (off : Nat) (pre : Bytes),
+    K = pre ++ (L.map fun t => bytesOf t.value).flatten → pre.length = off →
+    (∀ t ∈ L, TokShapeW (d0 :: dr) (e0 :: er) (t.kind, t.value)) →
+    CoresKept F (layoutOf (L.map fun t => bytesOf t.value)) off →
+    ∃ ps,
+      bytesOf (renderAll (d0 :: dr) (e0 :: er) ps) = minusFrom (L.map fun t => bytesOf t.value).flatten off F ∧
+      PExact (d0 :: dr) (e0 :: er) F ps L off
+  | [], _, _, _, _, _, _ => ⟨[], by simp [renderAll, minusFrom], trivial⟩
+  | t :: L, off, pre, hK, hpre, hsh, hck => by
+    have hsht := hsh t (by simp)
+    obtain ⟨hs, _, _, _, _⟩ := trimWs_decomp (bytesOf t.value)
+    have hlen : (bytesOf t.value).length =
+        (trimL (bytesOf t.value)).length + (trimWs (bytesOf t.value)).length + (trimR (bytesOf t.value)).length := by
+      conv => lhs; rw [hs]
+      simp [Nat.add_assoc]
+    simp only [List.map_cons, layoutOf, CoresKept, List.length_nil, Nat.add_zero] at hck
+    obtain ⟨hcore, _, hrest⟩ := hck
+    obtain ⟨ps, p2, p5⟩ := pieces_exact_w d0 dr e0 er hd0 hel F K hF L (off + (bytesOf t.value).length)
+      (pre ++ bytesOf t.value) (by rw [hK]; simp) (by simp [hpre]) (fun u hu => hsh u (by simp [hu]))
+      (by rw [hlen]; simpa [Nat.add_assoc] using hrest)
+    simp only [List.map_cons, List.flatten_cons]
+    rw [minusFrom_append, ← p2]
+    cases hk : t.kind with
+    | element =>
+      simp only [TokShapeW, hk] at hsht
+      obtain ⟨b0, rest, hv⟩ := hsht
+      obtain ⟨w, c, hwc⟩ := exists_snoc (e0 :: er) (by simp)
+      have hcw := hel w c hwc
+      have hval : t.value = (d0 :: (dr ++ (b0 :: rest) ++ w)) ++ [c] := by
+        rw [hv, hwc]; simp
+      obtain ⟨y, hy, hyc⟩ := bytesOf_last (d0 :: (dr ++ (b0 :: rest) ++ w)) c
+      rw [← hval] at hy
+      have hyw : isWs y = false := by
+        rcases hyc with rfl | rfl
+        · exact isWs_cont
+        · rw [isWs_lead]; exact hcw
+      have hhead : (bytesOf t.value).head? = some (.lead d0) := by rw [hv]; exact bytesOf_head d0 _
+      obtain ⟨t1, t2, t3⟩ := trim_full (bytesOf t.value) _ y hhead (by rw [isWs_lead]; exact hd0) hy hyw
+      have hkeep : minusFrom (bytesOf t.value) off F = bytesOf t.value := by
+        apply minusFrom_keep
+        intro i hi1 hi2
+        rw [t1, t2] at hcore
+        exact hcore i (by simpa using hi1) (by simpa using hi2)
+      rw [hkeep]
+      refine ⟨.tag b0 rest :: ps, ?_, ⟨hk, hv, p5⟩⟩
+      simp only [renderAll, Piece.render]
+      rw [← hv, bytesOf_append]
+    | text =>
+      obtain ⟨v', hv', _, _⟩ := minusFrom_encoded F t.value off (by
+        intro k hk' hFk
+        obtain ⟨y, hy, hyw⟩ := hF (off + k) hFk
+        refine ⟨y, ?_, hyw⟩
+        rw [hK, List.getElem?_append_right (by omega), hpre] at hy
+        simp only [List.map_cons, List.flatten_cons] at hy
+        rw [Nat.add_sub_cancel_left, List.getElem?_append_left hk'] at hy
+        exact hy)
+      rw [hv']
+      refine ⟨.text v' :: ps, ?_, ⟨hk, hv'.symm, p5⟩⟩
+      simp only [renderAll, Piece.render, bytesOf_append]
+
+/-- everything one cleaning of a source without `unwrap-block` gives, when its tokens are the normalised pieces -/
 theorem clean_exact (d0 : Char) (dr : List Char) (e0 : Char) (er : List Char)
     (hd0 : wsChar d0 = false) (hel : ∀ w c, (e0 :: er) = w ++ [c] → wsChar c = false)
-    (ps : List Piece) (hok : ∀ p ∈ ps, p.ok d0 e0) (cfg : Cfg) (out : List Char)
+    (ps : List Piece)
+    (htn : (tokenize (renderAll (d0 :: dr) (e0 :: er) ps) (d0 :: dr) (e0 :: er)).map (fun t => (t.kind, t.value))
+      = tnorm (d0 :: dr) (e0 :: er) [] ps [])
+    (cfg : Cfg) (out : List Char)
     (hnu : NoUnwrapAttr (parseSource (renderAll (d0 :: dr) (e0 :: er) ps) (d0 :: dr) (e0 :: er)))
     (h : clean (renderAll (d0 :: dr) (e0 :: er) ps) (d0 :: dr) (e0 :: er) cfg = .ok out) :
     ∃ qs s1 ranges,
@@ -365,10 +474,10 @@ theorem clean_exact (d0 : Char) (dr : List Char) (e0 : Char) (er : List Char)
           (parseSource (renderAll (d0 :: dr) (e0 :: er) ps) (d0 :: dr) (e0 :: er)))) 0 ∧
       (∀ t ∈ flattenParts (pruneParts (conditionHolds cfg)
           (parseSource (renderAll (d0 :: dr) (e0 :: er) ps) (d0 :: dr) (e0 :: er))),
-        t.value ≠ [] ∧ TokShape d0 e0 (d0 :: dr) (e0 :: er) (t.kind, t.value)) := by
+        t.value ≠ [] ∧ TokShapeW (d0 :: dr) (e0 :: er) (t.kind, t.value)) := by
   have hnr : NoReadyUnwrap cfg (parseSource (renderAll (d0 :: dr) (e0 :: er) ps) (d0 :: dr) (e0 :: er)) :=
     fun e he _ => hnu e he
-  generalize hsrc : renderAll (d0 :: dr) (e0 :: er) ps = src at h hnu hnr ⊢
+  generalize hsrc : renderAll (d0 :: dr) (e0 :: er) ps = src at h hnu hnr htn ⊢
   have hde : (e0 :: er) ≠ [] := by simp
   obtain ⟨hok', _⟩ := tokenize_ok src (d0 :: dr) (e0 :: er) hde
   have hfl : flattenParts (parseSource src (d0 :: dr) (e0 :: er)) = tokenize src (d0 :: dr) (e0 :: er) := parse_flatten (d0 :: dr) (e0 :: er) _
@@ -381,7 +490,7 @@ theorem clean_exact (d0 : Char) (dr : List Char) (e0 : Char) (er : List Char)
     fun i _ _ => by rw [← hX, readyExtents_eq]
   obtain ⟨hA, hW⟩ := prune_tokens cfg (bytesOf src) X (parseSource src (d0 :: dr) (e0 :: er)) 0 (blen src) hspan hnr hXe
   rw [hfl] at hA hW
-  generalize hT : tokenize src (d0 :: dr) (e0 :: er) = T at hA hW hok' hfl
+  generalize hT : tokenize src (d0 :: dr) (e0 :: er) = T at hA hW hok' hfl htn
   rw [hA]
   unfold clean at h
   simp only [bind, Except.bind, pure, Except.pure] at h
@@ -448,13 +557,13 @@ theorem clean_exact (d0 : Char) (dr : List Char) (e0 : Char) (er : List Char)
         rw [← hs1] at ho hanch hFws hh
         have hck := coresKept_of_anchored (mergeOverlapped ranges) removed (tokSegs X T) 0 [] (by simpa using hremoved) rfl
           (by rw [hremoved] at hanch; rw [hremoved]; exact hanch)
-        have hshape : ∀ t ∈ T.filter (keepTok X), TokShape d0 e0 (d0 :: dr) (e0 :: er) (t.kind, t.value) := by
+        have hshape : ∀ t ∈ T.filter (keepTok X), TokShapeW (d0 :: dr) (e0 :: er) (t.kind, t.value) := by
           intro t ht
           have htm : t ∈ T := (List.mem_filter.mp ht).1
           have hkv : (t.kind, t.value) ∈ T.map (fun t => (t.kind, t.value)) := List.mem_map.mpr ⟨t, htm, rfl⟩
-          rw [← hT, ← hsrc, tokens_tnorm d0 dr e0 er ps hok] at hkv
-          exact tnorm_shape d0 e0 _ _ ps [] hok (by simp) _ hkv
-        obtain ⟨qs, q1, q2, q5⟩ := (pieces_exact d0 dr e0 er hd0 hel (mergeOverlapped ranges) removed hFws)
+          rw [htn] at hkv
+          exact tnorm_shapeW _ _ ps [] _ hkv
+        obtain ⟨qs, q2, q5⟩ := (pieces_exact_w d0 dr e0 er hd0 hel (mergeOverlapped ranges) removed hFws)
           (T.filter (keepTok X)) 0 [] (by simpa [tokSegs] using hremoved) rfl hshape
           (by simpa [tokSegs] using hck)
         have hout : charsOf o = renderAll (d0 :: dr) (e0 :: er) qs := by
@@ -531,9 +640,9 @@ end
 
 theorem edgeOK_of_shape (d0 : Char) (dr : List Char) (e0 : Char) (er : List Char)
     (hd0 : wsChar d0 = false) (hel : ∀ w c, (e0 :: er) = w ++ [c] → wsChar c = false) (v : List Char)
-    (h : TokShape d0 e0 (d0 :: dr) (e0 :: er) (.element, v)) : EdgeOK v := by
-  simp only [TokShape] at h
-  obtain ⟨b0, rest, hv, _⟩ := h
+    (h : TokShapeW (d0 :: dr) (e0 :: er) (.element, v)) : EdgeOK v := by
+  simp only [TokShapeW] at h
+  obtain ⟨b0, rest, hv⟩ := h
   obtain ⟨w, c, hwc⟩ := exists_snoc (e0 :: er) (by simp)
   refine ⟨⟨d0, dr ++ (b0 :: (rest ++ (e0 :: er))), by rw [hv]; simp, hd0⟩,
     ⟨(d0 :: dr) ++ (b0 :: rest) ++ w, c, by rw [hv, hwc]; simp, hel w c hwc⟩⟩
@@ -543,8 +652,8 @@ theorem tokFacts_of (d0 : Char) (dr : List Char) (e0 : Char) (er : List Char)
     (hd0 : wsChar d0 = false) (hel : ∀ w c, (e0 :: er) = w ++ [c] → wsChar c = false)
     (hd0' : wsChar d0' = false) (hel' : ∀ w c, (e0' :: er') = w ++ [c] → wsChar c = false) :
     ∀ (L L' : List Token), TokXs (d0 :: dr) (e0 :: er) (d0' :: dr') (e0' :: er') (fun _ _ => True) L L' →
-    (∀ t ∈ L, t.value ≠ [] ∧ TokShape d0 e0 (d0 :: dr) (e0 :: er) (t.kind, t.value)) →
-    (∀ t ∈ L', t.value ≠ [] ∧ TokShape d0' e0' (d0' :: dr') (e0' :: er') (t.kind, t.value)) →
+    (∀ t ∈ L, t.value ≠ [] ∧ TokShapeW (d0 :: dr) (e0 :: er) (t.kind, t.value)) →
+    (∀ t ∈ L', t.value ≠ [] ∧ TokShapeW (d0' :: dr') (e0' :: er') (t.kind, t.value)) →
     TokFacts L L'
   | [], [], _, _, _ => by
     refine ⟨trivial, ⟨rfl, ?_⟩, ?_, ?_, ?_, ?_⟩
@@ -609,24 +718,25 @@ theorem tokFacts_of (d0 : Char) (dr : List Char) (e0 : Char) (er : List Char)
         | element => exact Or.inr rfl
       · exact ih.kinds x hx'
 
-/-- C18 exactly, for documents without `unwrap-block`: one piece list under two delimiter pairs is cleaned to one
-    piece list under the respective pair -/
-theorem respell_exact (d0 : Char) (dr : List Char) (e0 : Char) (er : List Char)
+/-- C18 exactly, for documents without `unwrap-block`, in its general form: whenever the tokens of the two renderings
+    are the normalised pieces (`htn`, `htn'` - the conclusion of C08 on the source) and the tag bodies can be stripped of
+    both delimiter pairs, the two cleanings give one piece list, rendered under the respective pair -/
+theorem respell_exact_tn (d0 : Char) (dr : List Char) (e0 : Char) (er : List Char)
     (d0' : Char) (dr' : List Char) (e0' : Char) (er' : List Char)
     (hd0 : wsChar d0 = false) (hel : ∀ w c, (e0 :: er) = w ++ [c] → wsChar c = false)
     (hd0' : wsChar d0' = false) (hel' : ∀ w c, (e0' :: er') = w ++ [c] → wsChar c = false)
     (ps : List Piece)
-    (hfree : ∀ p ∈ ps, p.fits d0 e0 (d0 :: dr) (e0 :: er) ∧ p.fits d0' e0' (d0' :: dr') (e0' :: er'))
+    (hstrip : ∀ p ∈ ps, p.strip (d0 :: dr) (e0 :: er) ∧ p.strip (d0' :: dr') (e0' :: er'))
+    (htn : (tokenize (renderAll (d0 :: dr) (e0 :: er) ps) (d0 :: dr) (e0 :: er)).map (fun t => (t.kind, t.value))
+      = tnorm (d0 :: dr) (e0 :: er) [] ps [])
+    (htn' : (tokenize (renderAll (d0' :: dr') (e0' :: er') ps) (d0' :: dr') (e0' :: er')).map (fun t => (t.kind, t.value))
+      = tnorm (d0' :: dr') (e0' :: er') [] ps [])
     (cfg : Cfg) (out out' : List Char)
     (hnu : NoUnwrapAttr (parseSource (renderAll (d0 :: dr) (e0 :: er) ps) (d0 :: dr) (e0 :: er)))
     (h : clean (renderAll (d0 :: dr) (e0 :: er) ps) (d0 :: dr) (e0 :: er) cfg = .ok out)
     (h' : clean (renderAll (d0' :: dr') (e0' :: er') ps) (d0' :: dr') (e0' :: er') cfg = .ok out') :
     ∃ qs, out = renderAll (d0 :: dr) (e0 :: er) qs ∧ out' = renderAll (d0' :: dr') (e0' :: er') qs := by
-  have hok : ∀ p ∈ ps, p.ok d0 e0 := fun p hp => Piece.ok_of_fits _ _ _ _ p (hfree p hp).1
-  have hok' : ∀ p ∈ ps, p.ok d0' e0' := fun p hp => Piece.ok_of_fits _ _ _ _ p (hfree p hp).2
-  have hT := tokXs_of_tnorm (d0 :: dr) (e0 :: er) (d0' :: dr') (e0' :: er') ps [] _ _
-    (fun p hp => ⟨Piece.strip_of_fits _ _ _ _ p (hfree p hp).1, Piece.strip_of_fits _ _ _ _ p (hfree p hp).2⟩)
-    (tokens_tnorm d0 dr e0 er ps hok) (tokens_tnorm d0' dr' e0' er' ps hok')
+  have hT := tokXs_of_tnorm (d0 :: dr) (e0 :: er) (d0' :: dr') (e0' :: er') ps [] _ _ hstrip htn htn'
   have hG := parse_x (d0 :: dr) (e0 :: er) (d0' :: dr') (e0' :: er') (fun _ _ => True) (by simp) (by simp) (by simp) (by simp) _ _ hT
   have hnu' : NoUnwrapAttr (parseSource (renderAll (d0' :: dr') (e0' :: er') ps) (d0' :: dr') (e0' :: er')) := by
     intro e he
@@ -638,8 +748,8 @@ theorem respell_exact (d0 : Char) (dr : List Char) (e0 : Char) (er : List Char)
     have := hnu e1 he1
     rw [hee] at this
     exact this
-  obtain ⟨qs, s1, ranges, o1, k1, hu1, x1, f1⟩ := clean_exact d0 dr e0 er hd0 hel ps hok cfg out hnu h
-  obtain ⟨qs', s1', ranges', o2, k2, hu2, x2, f2⟩ := clean_exact d0' dr' e0' er' hd0' hel' ps hok' cfg out' hnu' h'
+  obtain ⟨qs, s1, ranges, o1, k1, hu1, x1, f1⟩ := clean_exact d0 dr e0 er hd0 hel ps htn cfg out hnu h
+  obtain ⟨qs', s1', ranges', o2, k2, hu2, x2, f2⟩ := clean_exact d0' dr' e0' er' hd0' hel' ps htn' cfg out' hnu' h'
   unfold parseSource at hu1 hu2 k1 k2 x1 x2 f1 f2
   have hx := flatten_x _ _ _ _ _ _ _ (prune_x _ _ _ _ _ (conditionHolds cfg) _ _ hG)
   generalize hL : flattenParts (pruneParts (conditionHolds cfg)
@@ -663,6 +773,25 @@ theorem respell_exact (d0 : Char) (dr : List Char) (e0 : Char) (er : List Char)
     (Nat.zero_le _) (by simpa [bnd_zero] using x1) (by simpa [bnd_zero] using x2)
   subst heq
   exact ⟨qs, o1, o2⟩
+
+/-- C18 exactly, for documents without `unwrap-block`: one piece list under two delimiter pairs is cleaned to one
+    piece list under the respective pair -/
+theorem respell_exact (d0 : Char) (dr : List Char) (e0 : Char) (er : List Char)
+    (d0' : Char) (dr' : List Char) (e0' : Char) (er' : List Char)
+    (hd0 : wsChar d0 = false) (hel : ∀ w c, (e0 :: er) = w ++ [c] → wsChar c = false)
+    (hd0' : wsChar d0' = false) (hel' : ∀ w c, (e0' :: er') = w ++ [c] → wsChar c = false)
+    (ps : List Piece)
+    (hfree : ∀ p ∈ ps, p.fits d0 e0 (d0 :: dr) (e0 :: er) ∧ p.fits d0' e0' (d0' :: dr') (e0' :: er'))
+    (cfg : Cfg) (out out' : List Char)
+    (hnu : NoUnwrapAttr (parseSource (renderAll (d0 :: dr) (e0 :: er) ps) (d0 :: dr) (e0 :: er)))
+    (h : clean (renderAll (d0 :: dr) (e0 :: er) ps) (d0 :: dr) (e0 :: er) cfg = .ok out)
+    (h' : clean (renderAll (d0' :: dr') (e0' :: er') ps) (d0' :: dr') (e0' :: er') cfg = .ok out') :
+    ∃ qs, out = renderAll (d0 :: dr) (e0 :: er) qs ∧ out' = renderAll (d0' :: dr') (e0' :: er') qs :=
+  respell_exact_tn d0 dr e0 er d0' dr' e0' er' hd0 hel hd0' hel' ps
+    (fun p hp => ⟨Piece.strip_of_fits _ _ _ _ p (hfree p hp).1, Piece.strip_of_fits _ _ _ _ p (hfree p hp).2⟩)
+    (tokens_tnorm d0 dr e0 er ps (fun p hp => Piece.ok_of_fits _ _ _ _ p (hfree p hp).1))
+    (tokens_tnorm d0' dr' e0' er' ps (fun p hp => Piece.ok_of_fits _ _ _ _ p (hfree p hp).2))
+    cfg out out' hnu h h'
 
 /-! Non-vacuity: the example of `respell_default` has no `unwrap-block`; both cleanings give the same text. -/
 example : NoUnwrapAttr (parseSource (renderAll "<".toList ">".toList exPs2) "<".toList ">".toList) :=
